@@ -9,6 +9,7 @@ import z3
 from pyvc import sym, arr
 from pyvc.arr import check_same
 from pyvc.harness import Unit
+from pyvc import harness
 from pyvc.meshmodel import compare_blocks
 from pyvc.sym import SI, SR, check, explore
 from checks import ops_common as oc
@@ -54,6 +55,11 @@ def _upd(screening, dynamic):
     return lambda m=None: uc.run_update(m, screening, dynamic, prefixes=("C10.",))
 
 
+def _bounded_quick():
+    r = replay_trigger("bounded", {}, reduced=True)
+    return ([r.get("failing_input")] if r.get("confirmed") else []), r.get("evaluations", 0)
+
+
 def _solve_unit(m=None):
     from checks import c11
     r = c11.run_seed(m)
@@ -68,6 +74,8 @@ def units():
             Unit("update[screening, static A]", U, _upd(True, False), props=["C10"], timeout=900),
             Unit("update[screening, dynamic A]", U, _upd(True, True), props=["C10"], timeout=900),
             Unit("solve[hands over the state]", "tdgl.solver.solver:TDGLSolver.solve", _solve_unit, props=["C10", "C11"], timeout=300),
+            harness.bounded_unit("operators in use vs rebuilt at every step of real runs [bounded]", "tdgl.solver.solver:TDGLSolver.update (real runs, time-dependent field)", "C10",
+                                 _bounded_quick, "operators_equal_a_rebuild_for_the_potential_of_every_step[3 ramps, one solver solved twice]", timeout=900),
             Unit("set_link_exponents[fix_psi=True]", F + "MeshOperators.set_link_exponents", run_pinned, props=["C10", "C06"], timeout=900),
             Unit("set_link_exponents[fix_psi=False]", F + "MeshOperators.set_link_exponents", run_free, props=["C10"], timeout=900)]
 
@@ -100,7 +108,7 @@ def replay(unit, obl):
     return ops_native.replay_any(unit, obl)
 
 
-def replay_trigger(unit, obl):
+def replay_trigger(unit, obl, reduced=False):
     """native: drive the REAL solver with slowly and quickly ramped time-dependent fields (with / without screening) and compare,
     at every step, the operators in use with operators rebuilt from scratch for the latest total vector potential"""
     import logging
@@ -119,7 +127,7 @@ def replay_trigger(unit, obl):
     dev.make_mesh(max_edge_length=0.5, smooth=5)
     bad = []
     n = 0
-    for screening in (False, True):
+    for screening in ((False,) if reduced else (False, True)):
         for tmin, tmax in ((0.0, 5.0), (-1000.0, 2000.0), (-1000.0, 20000.0)):          # fast ramp from zero; slow ramps around a non-zero field
             field = LinearRamp(tmin=tmin, tmax=tmax) * ConstantField(1.0, field_units="mT", length_units="um")
             opts = tdgl.SolverOptions(solve_time=1, include_screening=screening, adaptive=False, dt_init=1e-2, field_units="mT")
@@ -176,7 +184,7 @@ def replay_trigger(unit, obl):
     # screening: at EVERY Euler step inside the self-consistency loop the operators must hold applied + induced potential of that
     # iteration.  The real update() is driven; adaptive_euler_step is wrapped (on the instance) and reads the caller's locals.
     import sys as _sys
-    for offset in ((0.0, 0.0), (-2.5, 1.5), (-12.5, 7.5)):
+    for offset in (() if reduced else ((0.0, 0.0), (-2.5, 1.5), (-12.5, 7.5))):
         def field(x, y, z, offset=offset):
             return np.stack([-0.5 * y + offset[0], 0.5 * x + offset[1], 0 * x], axis=1)
         opts = tdgl.SolverOptions(solve_time=1, include_screening=True, adaptive=False, dt_init=1e-2, field_units="mT")
